@@ -510,8 +510,14 @@ func genG02(repo string, w *Out) error {
 	switch strings.Join(strings.Fields(reframeIf), " ") {
 	case "":
 		w.DefBool("wr_frames_unknown_length", false)
+		w.DefBool("wr_reframes_close_delimited", false)
 	case g02ReframeShape:
 		w.DefBool("wr_frames_unknown_length", true)
+		w.DefBool("wr_reframes_close_delimited", false)
+	case strings.Replace(g02ReframeShape, "case len(res.TransferEncoding) == 0 && !res.Close:", "case len(res.TransferEncoding) == 0:", 1):
+		// a close-delimited upstream body is also sent chunked (and the connection still closed)
+		w.DefBool("wr_frames_unknown_length", true)
+		w.DefBool("wr_reframes_close_delimited", true)
 	default:
 		return fmt.Errorf("writeResponse: framing repair block %q is not a shape the model knows", reframeIf)
 	}
